@@ -9,6 +9,10 @@ for l in open(V+'/seeded/RESULTS.txt'):
     if m: res[(m.group(1),m.group(2))]=m
 NOTES={('C14','c'):'Not detected, by design: whether the arguments of a wrong-arity call are evaluated before the arity error is not pinned by C14 (read literally its statement would favour the changed behaviour; its anchor describes the original); the model treats wrong-arity / non-callable calls with impure arguments as out of domain.',
        ('C19','f'):'Not detected, by design: the change only affects texts in which a ধরি declaration spans a line break, which C08 and C18 explicitly place outside the domain (the implementation has an undocumented rule there).',
+       ('C01','g'):'Not detected by C01, caught by C13 (initialiser-order): what a literal that writes one name twice means is not part of the grammar C01 pins; the change does break C13\'s source-order clause for the names written once.',
+       ('C03','i'):'Not detected, by design: whether a body-level declaration collides with a parameter / the function\'s own name depends on whether the body is the activation scope or a block inside it, which C03\'s scope list does not settle; out of domain in the model from the start.',
+       ('C06','j'):'Not detected, by design: no property says what ইনপুট does at end of input; the model refuses runs that read past the end.',
+       ('C19','i'):'Not detected by C19, caught by C09, C10 and C18 (mixed-script literals stop lexing): the part the demonstration shows — signed Bangla-digit *strings* no longer coerce — is not pinned by any property (which strings coerce to numbers is unspecified; only origin-independence and one-string-one-number are required, and both still hold).',
        ('C13','c'):'With this change the repository\'s own flaky (non-baseline) parser test Object_Literal fails intermittently; the 157 stable tests pass.'}
 for (p,x),m in res.items():
     d=f'{V}/seeded/{p}-{x}'
@@ -18,7 +22,7 @@ for (p,x),m in res.items():
     meta['confirmed']={'applies_and_compiles':True,'repo_test_failures_with_change':int(m.group(5)),'demo_exit_without_change':int(m.group(3)),'demo_exit_with_change':int(m.group(4)),
       'how':f'tools/mutcheck.sh {p} {x} — fresh scratch worktree of /repo HEAD under /tmp, demo.sh run before and after `git apply patch.diff`, `go build ./...`, `go test -vet=off -count=1 ./...`, then ./vcheck with VERIF_REPO pointing at the worktree; worktree removed afterwards'}
     meta['checks_run']={c:{'quick_exit':int(rc),'first_signature':sig} for c,rc,sig in re.findall(r'(C\d+)=rc(\d)\[([^\]]*)\]',m.group(6))}
-    meta['source']='independent sub-agent given only the property text and a scratch worktree (round %d)'%({'a':1,'b':1,'c':2,'d':2,'e':3,'f':3,'g':4,'h':4}.get(x,0))
+    meta['source']='independent sub-agent given only the property text and a scratch worktree (round %d)'%({'a':1,'b':1,'c':2,'d':2,'e':3,'f':3,'g':4,'h':4,'i':5,'j':5}.get(x,0))
     if (p,x) in NOTES: meta['note']=NOTES[(p,x)]
     json.dump(meta,open(d+'/meta.json','w'),indent=1,ensure_ascii=False)
 rows=[]
@@ -28,6 +32,7 @@ for d in sorted(glob.glob(V+'/seeded/C*-*')):
     own=m.get('checks_run',{}).get(p,{}); rc=own.get('quick_exit')
     total+=1
     if rc==1: caught+=1; r='caught (%s)'%own.get('first_signature','')[:40]
+    elif m.get('note') and 'caught by' in m['note']: r='not caught by this check — caught by another (see note)'
     elif m.get('note'): r='not caught — out of domain by design'
     else: r='**not caught**' if rc==0 else 'not run yet'
     summ=(m.get('summary') or '').replace('\n',' ').replace('|','/')
